@@ -99,17 +99,33 @@ def top(a, b, m):
     return "top"
 
 
+@combiner(base_helper)
+def on_shared_helper(h):
+    # built on the plain helper that beta's implementation is built on as well: its own failure is nobody else's
+    maybe_fail("on_shared_helper")
+    return "osh"
+
+
+@combiner(on_shared_helper, optional=[lone_helper])
+def above_shared(o, l):
+    maybe_fail("above_shared")
+    return "above"
+
+
 BY = {"base_helper": base_helper, "lone_helper": lone_helper, "alpha_impl": alpha_impl, "beta_impl": beta_impl, "multi_impl": multi_impl,
-      "AlphaP": AlphaP, "BetaP": BetaP, "MultiP": MultiP}
+      "AlphaP": AlphaP, "BetaP": BetaP, "MultiP": MultiP, "on_shared_helper": on_shared_helper, "above_shared": above_shared}
 # where a fault of X may be recorded: X itself, or a spec X implements or is built on
 ALLOWED = {"base_helper": {base_helper, Specs.beta}, "lone_helper": {lone_helper}, "alpha_impl": {alpha_impl, Specs.alpha}, "beta_impl": {beta_impl, Specs.beta},
-           "multi_impl": {multi_impl, Specs.multi}, "AlphaP": {AlphaP, Specs.alpha}, "BetaP": {BetaP, Specs.beta}, "MultiP": {MultiP, Specs.multi}}
+           "multi_impl": {multi_impl, Specs.multi}, "AlphaP": {AlphaP, Specs.alpha}, "BetaP": {BetaP, Specs.beta}, "MultiP": {MultiP, Specs.multi},
+           "on_shared_helper": {on_shared_helper}, "above_shared": {above_shared}}
 # who loses its value when X fails (X itself and everything that REQUIRES it, transitively); everything else must still have a value
-LOSES = {"base_helper": {base_helper, beta_impl, Specs.beta, BetaP}, "lone_helper": {lone_helper}, "alpha_impl": {alpha_impl, Specs.alpha, AlphaP, mixes_spec_and_helper, top},
+LOSES = {"on_shared_helper": {on_shared_helper, above_shared}, "above_shared": {above_shared},
+         "base_helper": {base_helper, beta_impl, Specs.beta, BetaP, on_shared_helper, above_shared}, "lone_helper": {lone_helper}, "alpha_impl": {alpha_impl, Specs.alpha, AlphaP, mixes_spec_and_helper, top},
          "beta_impl": {beta_impl, Specs.beta, BetaP}, "multi_impl": {multi_impl, Specs.multi, MultiP}, "AlphaP": {AlphaP, top}, "BetaP": {BetaP}, "MultiP": {MultiP}}
-EVERYTHING = [base_helper, lone_helper, alpha_impl, beta_impl, multi_impl, Specs.alpha, Specs.beta, Specs.multi, AlphaP, BetaP, MultiP, mixes_spec_and_helper, top]
+EVERYTHING = [base_helper, lone_helper, alpha_impl, beta_impl, multi_impl, Specs.alpha, Specs.beta, Specs.multi, AlphaP, BetaP, MultiP, mixes_spec_and_helper, top,
+              on_shared_helper, above_shared]
 graph = {}
-for t in (top, mixes_spec_and_helper):
+for t in (top, mixes_spec_and_helper, above_shared):
     graph.update(dr.get_dependency_graph(t))
 n = 0
 for where, kind, store_skips in itertools.product(sorted(BY), ("arbitrary", "content", "skip"), (False, True)):
